@@ -13,7 +13,8 @@ SortSet(S) == IF S = {} THEN <<>> ELSE LET x == CHOOSE y \in S : \A z \in S : y 
 IncLists(S, k) == {SortSet(T) : T \in {U \in SUBSET S : Cardinality(U) <= k}}
 
 MkCall(op, from, ts, tot, mx, fr) ==
-  [op |-> op, from |-> from, tsave |-> ts, tot |-> tot, maxit |-> mx, freqs |-> fr]
+  [op |-> op, from |-> from, tsave |-> ts, tot |-> tot, maxit |-> mx, freqs |-> fr, cfl |-> 1]
+WithCfl(c, k) == [c EXCEPT !.cfl = k]
 
 Admissible(ts, tot, mx) == ~(ts = <<>> /\ tot = None /\ mx = None)
 
@@ -38,9 +39,14 @@ SolveVariants == {MkCall("solve", "f0", <<>>, None, 3, {}),           \* plain
 Restarts == {MkCall("restart", "last", <<>>, None, 2, {}),
              MkCall("restart", "last", <<>>, None, 2, {1, 3}),
              MkCall("restart", "last", <<14>>, None, None, {})}
+Plain == MkCall("solve", "f0", <<>>, None, 3, {})
 ScriptsC08 == {<<a>> : a \in SolveVariants} \cup {<<a, b>> : a \in SolveVariants, b \in SolveVariants \cup Restarts}
               \cup {<<a, b, c>> : a \in {v \in SolveVariants : v.tsave = <<>>},
-                                 b \in Restarts, c \in Restarts \cup {MkCall("solve", "f0", <<>>, None, 3, {})}}
+                                 b \in Restarts, c \in Restarts \cup {Plain}}
+              \* the CFL number changes between calls on one solver object (solve/solve, solve/restart, and back)
+              \cup {<<a, WithCfl(b, 2)>> : a \in {v \in SolveVariants : v.tsave = <<>>}, b \in Restarts \cup {Plain}}
+              \cup {<<WithCfl(a, 2), b>> : a \in {Plain, MkCall("solve", "f0", <<1, 5>>, None, 3, {})}, b \in Restarts \cup {Plain}}
+              \cup {<<Plain, WithCfl(b, 2), c>> : b \in Restarts, c \in Restarts \cup {Plain}}
 
 -----------------------------------------------------------------------------
 (* projection of an outcome of the specification onto the observation record of Contract *)
@@ -83,7 +89,7 @@ InvC07_finite  == Done => C!C07_finite(Project(Lst))
 PureTraj(o) == /\ PTm(o, 1) = o.t0 /\ PDm(o, 1) = o.d0
                /\ \A n \in 1..o.nit : /\ PDm(o, n + 1) = Ideal(o, n, PTm(o, n) + o.traj[n].dt)
                                       /\ PTm(o, n + 1) = PTm(o, n) + o.traj[n].dt
-                                      /\ o.traj[n].dt = Dt(prof, PTm(o, n))
+                                      /\ o.traj[n].dt = o.cfl * Dt(prof, PTm(o, n))
 InvC08_pure == Done => PureTraj(Lst)
 
 (* C08: a fresh solve never inherits hidden state *)
@@ -91,7 +97,7 @@ InvC08_fresh == Done => (Lst.op = "solve" /\ kind = "gear" => Lst.tag0 = "none")
 
 (* C08 (i): same call, same field, same object => same everything *)
 SameCall(a, b) == a.op = "solve" /\ b.op = "solve" /\ a.t0 = b.t0 /\ a.d0 = b.d0 /\ a.tsave = b.tsave
-                  /\ a.tot = b.tot /\ a.maxit = b.maxit
+                  /\ a.tot = b.tot /\ a.maxit = b.maxit /\ a.cfl = b.cfl
 InvC08_repeat == \A i, j \in 1..Len(hist) :
                     SameCall(hist[i], hist[j]) => /\ hist[i].res = hist[j].res /\ hist[i].traj = hist[j].traj
                                                   /\ hist[i].dfin = hist[j].dfin /\ hist[i].nit = hist[j].nit
@@ -120,7 +126,7 @@ Export == (Done /\ script = <<>> /\ GenFile # "") => CSVWrite("%1$s", <<GenLine(
 (* export of multi-call scripts: the calls and the specification's outcome of each *)
 HistLine == ToJson([kind |-> kind, prof |-> prof, t0 |-> f0.t,
                     calls |-> [k \in 1..Len(hist) |->
-                       [op |-> hist[k].op, cont |-> hist[k].cont, tsave |-> hist[k].tsave, tot |-> hist[k].tot,
+                       [op |-> hist[k].op, cont |-> hist[k].cont, tsave |-> hist[k].tsave, tot |-> hist[k].tot, cfl |-> hist[k].cfl,
                         maxit |-> hist[k].maxit, freqs |-> SortSet(hist[k].freqs),
                         nit |-> hist[k].nit, totnit |-> hist[k].totnit, tfin |-> hist[k].tfin,
                         rest |-> [i \in 1..Len(hist[k].res) |-> hist[k].res[i].t],
